@@ -241,7 +241,7 @@ Fixpoint dfs (fuel : nat) (todo seen acc : list Z) : list Z :=
                      else dfs f (subs_of c ++ rest) (c :: seen) (c :: acc)
       end
   end.
-Definition ct_fuel : nat := (2 * length (flat_map snd ct_subs) + 2)%nat.
+Definition ct_fuel : nat := (2 * List.length (flat_map snd ct_subs) + 2)%nat.
 Definition iter_subclasses (c : Z) : list Z := dfs ct_fuel (subs_of c) [] [].
 
 Definition by_cls (c : Z) (l : list obj) : list obj := filter (fun o => ocls o =? c) l.
@@ -281,7 +281,7 @@ Definition iter_link (nxt : point -> option Z) (p : part) (t : Z) (c : option Z)
   match find_pt t (points p) with
   | None => []
   | Some q0 => flat_map (tagged SStart c sub)
-                 (follow nxt (S (length (points p))) (points p) (if eq then Some t else nxt q0))
+                 (follow nxt (S (List.length (points p))) (points p) (if eq then Some t else nxt q0))
   end.
 Definition iter_next := iter_link pnext.
 Definition iter_prev := iter_link pprev.
@@ -362,9 +362,13 @@ Record obs := mkObs {
   ob_refs : list (option Z * option Z);      (* start.t / end.t of every object of the history, in order *)
   ob_queries : list (query * qres) }.
 
-Definition refs_eqb (p : part) (objs : list obj) (refs : list (option Z * option Z)) : bool :=
-  list_eqb (fun (o : obj) (r : option Z * option Z) => zopt_eqb (ostart p o) (fst r) && zopt_eqb (oend p o) (snd r))
-           objs refs.
+Fixpoint refs_eqb (p : part) (objs : list obj) (refs : list (option Z * option Z)) : bool :=
+  match objs, refs with
+  | [], [] => true
+  | o :: objs', r :: refs' =>
+      zopt_eqb (ostart p o) (fst r) && zopt_eqb (oend p o) (snd r) && refs_eqb p objs' refs'
+  | _, _ => false
+  end.
 
 Definition obs_ok (objs : list obj) (p : part) (o : out) (ob : obs) : bool :=
   (out_code o =? ob_out ob) && points_eqb (points p) (ob_points ob) && zz_eqb (qtab p) (ob_qtab ob)
@@ -382,3 +386,10 @@ Fixpoint first_diff (objs : list obj) (p : part) (i : Z) (h : list (op * obs)) :
 
 Definition history_ok (c : Z * list obj * list (op * obs)) : bool :=
   match c with (q0, objs, h) => match first_diff objs (init q0) 0 h with None => true | Some _ => false end end.
+
+(* small-scope enumeration: only the observation after the last operation is compared
+   (every prefix of an enumerated history is itself enumerated) *)
+Fixpoint run_out (p : part) (ops : list op) (o : out) : part * out :=
+  match ops with [] => (p, o) | x :: r => let '(p', o') := step p x in run_out p' r o' end.
+Definition final_ok (c : Z * list obj * list op * obs) : bool :=
+  match c with (q0, objs, ops, ob) => let '(p, o) := run_out (init q0) ops OutOk in obs_ok objs p o ob end.
